@@ -19,6 +19,7 @@ func checkC12(p *Program, r *Report) {
 		"R4 lookup order: own table, then external lookup, then parent; built-in types only at the root and last. " +
 		"R5 Copy builds fresh maps filled from the receiver's; the parent link is stored only into objects allocated in the same function or returned by Copy. " +
 		"R6 no exported method can panic: every may-panic instruction (nil dereference incl. the comma-ok clobber, index, unchecked type assertion, explicit panic) is discharged by a dominating guard.")
+	r.Explain("R4 is evaluated on scope cursors (the receiver, or the variable of a loop walking up the chain): every step to the parent - recursive call or cursor advance - is reached only after that scope's external lookup was asked or seen to be absent.")
 	r.Assume("functional equivalence with a dictionary-chain model over all histories is not decided; receivers are non-nil; reflect.Values handed in by the host are valid")
 	r.Exhaustive = true
 	m, err := buildEnvModel(p)
@@ -376,17 +377,22 @@ func c12Order(p *Program, r *Report, m *envModel, fns []*ssa.Function) {
 		}
 		recv := fn.Params[0]
 		fname := funcName(fn)
+		// the scope being searched: the receiver, or the variable of a loop that walks up the chain
+		cur := m.scopeCursors(fn, recv)
+		curOf := map[ssa.Instruction]ssa.Value{}
 		var own []*ssa.Lookup
 		var ext []*ssa.Call
-		var parentCalls []*ssa.Call
+		var parentCalls []ssa.Instruction // steps to the parent: recursive calls on c.parent, and the jump that carries c = c.parent round a loop
 		var basic []*ssa.Lookup
 		for _, b := range fn.Blocks {
 			for _, in := range b.Instrs {
 				switch x := in.(type) {
 				case *ssa.Lookup:
-					if bx, f, ok := fieldLoad(x.X); ok && bx == ssa.Value(recv) {
-						if _, isT := m.tables[f]; isT {
+					if bx, f, ok := fieldLoad(x.X); ok && cur[bx] {
+						_, keyIsParam := x.Index.(*ssa.Parameter)
+						if _, isT := m.tables[f]; isT && (bx == ssa.Value(recv) || keyIsParam) { // a loop looking up something else than the name asked for is another search (path resolution, R9)
 							own = append(own, x)
+							curOf[x] = bx
 						}
 					} else if u, ok := x.X.(*ssa.UnOp); ok {
 						if g, ok := u.X.(*ssa.Global); ok && g.Pkg == m.sp {
@@ -395,15 +401,32 @@ func c12Order(p *Program, r *Report, m *envModel, fns []*ssa.Function) {
 					}
 				case *ssa.Call:
 					if x.Call.IsInvoke() {
-						if bx, f, ok := fieldLoad(x.Call.Value); ok && bx == ssa.Value(recv) && f == m.extI {
+						if bx, f, ok := fieldLoad(x.Call.Value); ok && cur[bx] && f == m.extI {
 							ext = append(ext, x)
+							curOf[x] = bx
 						}
-					} else if callee := staticCallee(x); callee == fn && len(x.Call.Args) > 0 && m.isParentLoad(x.Call.Args[0], recv) {
-						parentCalls = append(parentCalls, x)
+					} else if callee := staticCallee(x); callee == fn && len(x.Call.Args) > 0 {
+						if bx, f, ok := fieldLoad(x.Call.Args[0]); ok && cur[bx] && f == m.parentI {
+							parentCalls = append(parentCalls, x)
+							curOf[x] = bx
+						}
+					}
+				case *ssa.Phi:
+					if !cur[x] {
+						continue
+					}
+					for k, e := range x.Edges {
+						if bx, f, ok := fieldLoad(e); ok && cur[bx] && f == m.parentI {
+							pr := b.Preds[k]
+							jump := pr.Instrs[len(pr.Instrs)-1]
+							parentCalls = append(parentCalls, jump)
+							curOf[jump] = bx
+						}
 					}
 				}
 			}
 		}
+		m.advancePastExternal(p, r, fn, recv)
 		if len(own) == 0 || len(parentCalls) == 0 {
 			continue
 		}
@@ -432,11 +455,11 @@ func c12Order(p *Program, r *Report, m *envModel, fns []*ssa.Function) {
 		for _, e := range ext {
 			// find the guarding If: block whose true successor dominates e's block
 			ok2 := true
-			for _, tgt := range append(instrsOf(parentCalls), instrsOfL(basic)...) {
+			for _, tgt := range append(append([]ssa.Instruction{}, parentCalls...), instrsOfL(basic)...) {
 				if reachesAvoiding(e.Block().Idom(), tgt.Block(), e.Block()) && e.Block().Idom() != nil {
 					// the path through the false edge (externalLookup == nil) is legitimate: require that
 					// the only way around e is the nil edge of the guard
-					if !guardIsNilTestOf(e.Block(), recv, m.extI) {
+					if !guardIsNilTestOf(e.Block(), curOf[e], m.extI) {
 						ok2 = false
 					}
 				}
@@ -461,10 +484,16 @@ func c12Order(p *Program, r *Report, m *envModel, fns []*ssa.Function) {
 		}
 		// parent call only when parent != nil; built-ins only when parent == nil
 		for _, pc := range parentCalls {
-			r.Check(m.guardedByParentTest(pc.Block(), recv, false), "C12.R4", fname+"|parent-guard", p.Pos(pc.Pos()), "parent consulted only when it exists", "parent consulted without a parent != nil test")
+			r.Check(m.guardedByParentTest(pc.Block(), curOf[pc], false), "C12.R4", fname+"|parent-guard", p.Pos(instrPos(pc)), "parent consulted only when it exists", "parent consulted without a parent != nil test")
 		}
 		for _, bl := range basic {
-			r.Check(m.guardedByParentTest(bl.Block(), recv, true), "C12.R4", fname+"|builtins-at-root", p.Pos(bl.Pos()), "built-in types consulted only at the root scope, after everything else", "built-in type names are consulted in a non-root scope: they shadow definitions of enclosing scopes")
+			atRoot := false
+			for c := range cur {
+				if m.guardedByParentTest(bl.Block(), c, true) {
+					atRoot = true
+				}
+			}
+			r.Check(atRoot, "C12.R4", fname+"|builtins-at-root", p.Pos(bl.Pos()), "built-in types consulted only at the root scope, after everything else", "built-in type names are consulted in a non-root scope: they shadow definitions of enclosing scopes")
 		}
 		// found in own table → returned at once (true edge of ok returns the looked-up value)
 		for _, lk := range own {
@@ -479,7 +508,7 @@ func c12Order(p *Program, r *Report, m *envModel, fns []*ssa.Function) {
 							t := iff.Block().Succs[0]
 							reach := reachable(t, nil)
 							okRet = len(t.Preds) == 1
-							for _, other := range append(append(instrsOf(ext), instrsOf(parentCalls)...), instrsOfL(basic)...) {
+							for _, other := range append(append(instrsOf(ext), parentCalls...), instrsOfL(basic)...) {
 								if reach[other.Block()] {
 									okRet = false
 								}
@@ -491,7 +520,162 @@ func c12Order(p *Program, r *Report, m *envModel, fns []*ssa.Function) {
 			r.Check(okRet, "C12.R4", fname+"|found-returns", p.Pos(lk.Pos()), "a binding found in the own table ends the search", "search continues although the own table has the binding")
 		}
 	}
-	r.Floor("C12.R4", n, 4)
+	r.Floor("C12.R4", n, 5)
+}
+
+// scopeCursors: the receiver and every phi that is the receiver or the parent of a cursor on each edge (the variable of a
+// loop that walks up the chain).
+func (m *envModel) scopeCursors(fn *ssa.Function, recv ssa.Value) map[ssa.Value]bool {
+	set := map[ssa.Value]bool{recv: true}
+	for changed := true; changed; {
+		changed = false
+		for _, b := range fn.Blocks {
+			for _, in := range b.Instrs {
+				ph, ok := in.(*ssa.Phi)
+				if !ok || set[ph] || !m.isEnvPtr(ph.Type()) {
+					continue
+				}
+				all := true
+				for _, e := range ph.Edges {
+					if set[e] || e == ssa.Value(ph) {
+						continue
+					}
+					if x, f, ok := fieldLoad(e); ok && f == m.parentI && (set[x] || x == ssa.Value(ph)) {
+						continue
+					}
+					all = false
+				}
+				if all {
+					set[ph] = true
+					changed = true
+				}
+			}
+		}
+	}
+	return set
+}
+
+// advancePastExternal (R4): in a function that asks a scope's external lookup, every step from a scope to its parent
+// (a recursive call on the parent, or the cursor of a chain-walking loop moving up) is reached only after that scope's
+// external lookup was asked or seen to be absent.
+func (m *envModel) advancePastExternal(p *Program, r *Report, fn *ssa.Function, recv ssa.Value) {
+	cur := m.scopeCursors(fn, recv)
+	extOf := func(in ssa.Instruction) ssa.Value { // the cursor whose external lookup this instruction invokes
+		c, ok := in.(*ssa.Call)
+		if !ok || !c.Call.IsInvoke() {
+			return nil
+		}
+		if x, f, ok := fieldLoad(c.Call.Value); ok && f == m.extI && cur[x] {
+			return x
+		}
+		return nil
+	}
+	has := false
+	for _, b := range fn.Blocks {
+		for _, in := range b.Instrs {
+			if extOf(in) != nil {
+				has = true
+			}
+		}
+	}
+	if !has {
+		return
+	}
+	type adv struct {
+		c   ssa.Value
+		b   *ssa.BasicBlock
+		idx int
+		pos token.Pos
+	}
+	var advs []adv
+	for _, b := range fn.Blocks {
+		for i, in := range b.Instrs {
+			switch x := in.(type) {
+			case *ssa.Call:
+				if x.Call.IsInvoke() || len(x.Call.Args) == 0 {
+					continue
+				}
+				if c, f, ok := fieldLoad(x.Call.Args[0]); ok && f == m.parentI && cur[c] {
+					advs = append(advs, adv{c, b, i, x.Pos()})
+				}
+			case *ssa.Phi:
+				if !cur[x] {
+					continue
+				}
+				for k, e := range x.Edges {
+					if c, f, ok := fieldLoad(e); ok && f == m.parentI && cur[c] {
+						pr := b.Preds[k]
+						pos := e.Pos()
+						if !pos.IsValid() {
+							pos = x.Pos()
+						}
+						advs = append(advs, adv{c, pr, len(pr.Instrs), pos})
+					}
+				}
+			}
+		}
+	}
+	nilEdge := func(b *ssa.BasicBlock, c ssa.Value) int { // the successor index on which c's external lookup is known absent
+		iff, ok := b.Instrs[len(b.Instrs)-1].(*ssa.If)
+		if !ok {
+			return -1
+		}
+		bo, ok := iff.Cond.(*ssa.BinOp)
+		if !ok || !isNilConst(bo.Y) {
+			return -1
+		}
+		if x, f, ok := fieldLoad(bo.X); !ok || x != c || f != m.extI {
+			return -1
+		}
+		if bo.Op == token.NEQ {
+			return 1
+		}
+		if bo.Op == token.EQL {
+			return 0
+		}
+		return -1
+	}
+	for k, a := range advs {
+		start := fn.Blocks[0]
+		if ph, ok := a.c.(*ssa.Phi); ok {
+			start = ph.Block()
+		}
+		bad := false
+		seen := map[*ssa.BasicBlock]bool{}
+		var visit func(b *ssa.BasicBlock)
+		visit = func(b *ssa.BasicBlock) {
+			if seen[b] || bad {
+				return
+			}
+			seen[b] = true
+			inv := -1
+			for i, in := range b.Instrs {
+				if extOf(in) == a.c {
+					inv = i
+					break
+				}
+			}
+			if b == a.b {
+				if inv < 0 || inv > a.idx {
+					bad = true
+				}
+				return
+			}
+			if inv >= 0 {
+				return
+			}
+			skip := nilEdge(b, a.c)
+			for i, s := range b.Succs {
+				if i != skip {
+					visit(s)
+				}
+			}
+		}
+		visit(start)
+		r.Check(!bad, "C12.R4", fmt.Sprintf("%s|step to the parent #%d after the external lookup", funcName(fn), k+1), p.Pos(a.pos),
+			"the search moves to the parent scope only after this scope's external lookup was asked or is absent",
+			"the search moves on to the parent scope on a path where this scope's external lookup was neither asked nor seen to be absent: what it supplies for the name is skipped and a farther binding is returned")
+	}
 }
 
 func instrsOf(cs []*ssa.Call) []ssa.Instruction {
